@@ -44,7 +44,7 @@ func rbIP6(p packet.IP6) string {
 
 func runIP6(a []string) string {
 	c, l, seed, hop := atoi(a[0]), atoi(a[1]), uint64(atoi(a[2])), byte(atoi(a[3]))
-	src, dst := addr(lib.UnHex(a[4])), addr(lib.UnHex(a[5]))
+	src, dst := addr(unhex(a[4])), addr(unhex(a[5]))
 	buf, full, old := mkbuf(c, l, seed)
 	ip := packet.EncodeIP6(buf, hop, src, dst)
 	if c < 40 || !sameArrayEnd(full, ip) {
@@ -55,8 +55,8 @@ func runIP6(a []string) string {
 
 func runIP6Pl(a []string) string {
 	c, l, seed, hop := atoi(a[0]), atoi(a[1]), uint64(atoi(a[2])), byte(atoi(a[3]))
-	srcb, dstb := lib.UnHex(a[4]), lib.UnHex(a[5])
-	nh, mode, payload := byte(atoi(a[6])), a[7], sarg(lib.UnHex(a[8]))
+	srcb, dstb := unhex(a[4]), unhex(a[5])
+	nh, mode, payload := byte(atoi(a[6])), a[7], sarg(unhex(a[8]))
 	if payload == nil {
 		payload = []byte{}
 	}
@@ -100,11 +100,11 @@ func runIP6Pl(a []string) string {
 
 func runFrame6(a []string) string {
 	c, l, seed := atoi(a[0]), atoi(a[1]), uint64(atoi(a[2]))
-	smac, dmac := marg(lib.UnHex(a[3])), marg(lib.UnHex(a[4]))
+	smac, dmac := marg(unhex(a[3])), marg(unhex(a[4]))
 	hop := byte(atoi(a[5]))
-	sipb, dipb := lib.UnHex(a[6]), lib.UnHex(a[7])
+	sipb, dipb := unhex(a[6]), unhex(a[7])
 	sp, dp := uint16(atoi(a[8])), uint16(atoi(a[9]))
-	data := sarg(lib.UnHex(a[10]))
+	data := sarg(unhex(a[10]))
 	buf, full, old := mkbuf(c, l, seed)
 	ether := packet.EncodeEther(buf, 0x86dd, net.HardwareAddr(smac), net.HardwareAddr(dmac))
 	ip6 := packet.EncodeIP6(ether.Payload(), hop, addr(sipb), addr(dipb))
@@ -153,7 +153,7 @@ func rbARP(p packet.ARP) string {
 
 func runARP(a []string) string {
 	c, l, seed, op := atoi(a[0]), atoi(a[1]), uint64(atoi(a[2])), uint16(atoi(a[3]))
-	smac, sip, dmac, dip := marg(lib.UnHex(a[4])), lib.UnHex(a[5]), marg(lib.UnHex(a[6])), lib.UnHex(a[7])
+	smac, sip, dmac, dip := marg(unhex(a[4])), unhex(a[5]), marg(unhex(a[6])), unhex(a[7])
 	buf, full, old := mkbuf(c, l, seed)
 	out := packet.EncodeARP(buf, op, packet.Addr{MAC: net.HardwareAddr(smac), IP: addr(sip)}, packet.Addr{MAC: net.HardwareAddr(dmac), IP: addr(dip)})
 	if c >= 28 && len(smac) == 6 && len(dmac) == 6 && len(sip) == 4 && len(dip) == 4 {
@@ -181,7 +181,7 @@ func rbEcho(p packet.ICMPEcho) string {
 func runEcho(a []string) string {
 	c, l, seed := atoi(a[0]), atoi(a[1]), uint64(atoi(a[2]))
 	t, code, id, seq := byte(atoi(a[3])), byte(atoi(a[4])), uint16(atoi(a[5])), uint16(atoi(a[6]))
-	data := sarg(lib.UnHex(a[7]))
+	data := sarg(unhex(a[7]))
 	buf, full, old := mkbuf(c, l, seed)
 	out := packet.EncodeICMPEcho(buf, t, code, id, seq, data)
 	if 8+len(data) <= c {
@@ -204,7 +204,7 @@ func llaStr(m net.HardwareAddr) string {
 
 func runNA(a []string) string {
 	ro, so, ov := a[0] == "T", a[1] == "T", a[2] == "T"
-	tip, tmac := lib.UnHex(a[3]), marg(lib.UnHex(a[4]))
+	tip, tmac := unhex(a[3]), marg(unhex(a[4]))
 	b := packet.ICMP6NeighborAdvertisementMarshal(ro, so, ov, packet.Addr{MAC: net.HardwareAddr(tmac), IP: addr(tip)})
 	p := packet.ICMP6NeighborAdvertisement(b)
 	if len(tip) == 16 && len(tmac) == 6 {
@@ -235,7 +235,7 @@ func runNA(a []string) string {
 }
 
 func runNS(a []string) string {
-	tip, slla := lib.UnHex(a[0]), marg(lib.UnHex(a[1]))
+	tip, slla := unhex(a[0]), marg(unhex(a[1]))
 	b, err := packet.ICMP6NeighborSolicitationMarshal(addr(tip), net.HardwareAddr(slla))
 	if err != nil {
 		return "err:EOther"
@@ -302,7 +302,7 @@ func walkHitsSpecial(p []byte) bool {
 }
 
 func runDNSQ(a []string) string {
-	id, fl, name, qt := uint16(atoi(a[0])), uint16(atoi(a[1])), sarg(lib.UnHex(a[2])), uint16(atoi(a[3]))
+	id, fl, name, qt := uint16(atoi(a[0])), uint16(atoi(a[1])), sarg(unhex(a[2])), uint16(atoi(a[3]))
 	p := packet.EncodeDNSQuery(id, fl, name, qt)
 	if plainName(name) && len(name) <= 255 {
 		d, ok := refDNSQuery(p)
@@ -350,7 +350,7 @@ func parseOptsTok(s string) []optKV {
 		kv := strings.SplitN(t, "=", 2)
 		v := []byte{}
 		if kv[1] != "" {
-			v = lib.UnHex(kv[1])
+			v = unhex(kv[1])
 		}
 		out = append(out, optKV{byte(atoi(kv[0])), v})
 	}
@@ -430,15 +430,15 @@ func dhcpOnce(a []string) (obs string, wire []byte) {
 	opcode, mt := byte(atoi(a[3])), byte(atoi(a[4]))
 	var ch net.HardwareAddr
 	if a[5] == "T" {
-		ch = net.HardwareAddr(sarg(lib.UnHex(a[6])))
+		ch = net.HardwareAddr(sarg(unhex(a[6])))
 		if ch == nil {
 			ch = net.HardwareAddr{}
 		}
 	}
-	ci, yi := addr(lib.UnHex(a[7])), addr(lib.UnHex(a[8]))
+	ci, yi := addr(unhex(a[7])), addr(unhex(a[8]))
 	var xid []byte
 	if a[9] == "T" {
-		xid = sarg(lib.UnHex(a[10]))
+		xid = sarg(unhex(a[10]))
 		if xid == nil {
 			xid = []byte{}
 		}
@@ -447,7 +447,7 @@ func dhcpOnce(a []string) (obs string, wire []byte) {
 	kvs := parseOptsTok(a[12])
 	// the requested order first, the option values directly behind it (as in a received message, where the
 	// parameter request list is followed by the next option)
-	order := sarg(lib.UnHex(a[13]))
+	order := sarg(unhex(a[13]))
 	opts := packet.DHCP4Options{}
 	for _, kv := range kvs {
 		opts[packet.DHCP4OptionCode(kv.k)] = sarg(kv.v)
@@ -536,7 +536,7 @@ func dhcpOnce(a []string) (obs string, wire []byte) {
 
 // replay: the map iteration order is not controllable; retry until the recorded order comes up
 func runDHCP4(a []string) string {
-	want := lib.Hex(lib.UnHex(a[14]))
+	want := lib.Hex(unhex(a[14]))
 	obs := ""
 	for try := 0; try < 2000; try++ {
 		var w []byte
